@@ -287,9 +287,9 @@ class HelixObject:
     @property
     def position(self) -> vector.VectorObject3D:
         return vector.VectorObject3D(
-            x=self.dr * math.cos(self.phi0),
-            y=self.dr * math.sin(self.phi0),
-            z=self.dz,
+            x=self.pivot.x + self.dr * math.cos(self.phi0),
+            y=self.pivot.y + self.dr * math.sin(self.phi0),
+            z=self.pivot.z + self.dz,
         )
 
     @property
@@ -744,7 +744,10 @@ class HelixAwkwardRecord(ak.Record):
             vector.VectorObject3D: The position vector of the helix.
         """
         x, y, z = _compute_position(self.dr, self.phi0, self.dz)
-        return ak.zip({"x": x, "y": y, "z": z}, with_name="Vector3D")
+        pivot = self.pivot
+        return ak.zip(
+            {"x": pivot.x + x, "y": pivot.y + y, "z": pivot.z + z}, with_name="Vector3D"
+        )
 
     @property
     def charge(self) -> int:
@@ -826,7 +829,10 @@ class HelixAwkwardArray(ak.Array):
             vector.VectorNumpy3D: The position vectors of the helix.
         """
         x, y, z = _compute_position(self.dr, self.phi0, self.dz)
-        return ak.zip({"x": x, "y": y, "z": z}, with_name="Vector3D")
+        pivot = self.pivot
+        return ak.zip(
+            {"x": pivot.x + x, "y": pivot.y + y, "z": pivot.z + z}, with_name="Vector3D"
+        )
 
     @property
     def charge(self) -> ak.Array:
